@@ -133,10 +133,9 @@ def r4(ctx):
     ctx.check(P, rule, "no valid slot: fresh log with a key pair, otherwise EmptyStorage", ok_none, "region (None, None): fresh(key_pair) or Err(EmptyStorage)", "(None, None) region does not create a fresh log / report empty storage", key="C07|C07.R4|none")
 
 
-def r5(ctx):
+def r5(ctx, P=P, rule="C07.R5"):
     """the header bits remembered after open are consistent with the slot that was chosen:
     get_current_header_bit() (= bits differ) and the slot rotation are derived from them"""
-    rule = "C07.R5"
     fo = ctx.fn(OPLOG_OPEN)
     if not need(ctx, P, rule, OPLOG_OPEN, fo):
         return
@@ -171,7 +170,7 @@ def r5(ctx):
     ctx.check(P, rule, "remembered header bits match the slot whose header is used", got == want,
               "both valid: [h1, h2]; only slot 1: [h1, h1] (equal => slot 1 current); only slot 2: [!h2, h2] (different => slot 2 current)",
               "Oplog::open remembers header bits %s (slot, negated) — expected [h1,h2] / [h1,h1] / [!h2,h2]: with other bits get_current_header_bit() and the slot rotation disagree with the header that was actually loaded, so the entries written under it are skipped and the next flush overwrites the only valid slot" % got,
-              [s for s, _, _ in shapes], key="C07|C07.R5|Oplog::open|header bits vs chosen slot")
+              [s for s, _, _ in shapes], key="%s|%s|Oplog::open|header bits vs chosen slot" % (P, rule))
     fc = ctx.fn(CUR_HDR_BIT)
     if need(ctx, P, rule, CUR_HDR_BIT, fc):
         r = [t for _, _, t in ret_assigns(fc)]
